@@ -152,7 +152,7 @@ func (f *Subseq) getArgs(s *slip.Scope, args slip.List, depth int) (start, end i
 		if end < 0 {
 			end = len(ta)
 		}
-		if start < 0 || len(ta) < start || len(ta) < end {
+		if start < 0 || len(ta) < start || len(ta) < end || end < start {
 			slip.ErrorPanic(s, depth, "indices %d and %d are out of bounds for list of length %d", start, end, len(ta))
 		}
 		seq = ta
@@ -161,7 +161,7 @@ func (f *Subseq) getArgs(s *slip.Scope, args slip.List, depth int) (start, end i
 		if end < 0 {
 			end = len(ra)
 		}
-		if start < 0 || len(ra) < start || len(ra) < end {
+		if start < 0 || len(ra) < start || len(ra) < end || end < start {
 			slip.ErrorPanic(s, depth, "indices %d and %d are out of bounds for string of length %d", start, end, len(ra))
 		}
 		seq = ta
@@ -170,7 +170,7 @@ func (f *Subseq) getArgs(s *slip.Scope, args slip.List, depth int) (start, end i
 		if end < 0 {
 			end = size
 		}
-		if start < 0 || size < start || size < end {
+		if start < 0 || size < start || size < end || end < start {
 			slip.ErrorPanic(s, depth, "indices %d and %d are out of bounds for vector of length %d", start, end, size)
 		}
 		seq = ta
@@ -179,7 +179,7 @@ func (f *Subseq) getArgs(s *slip.Scope, args slip.List, depth int) (start, end i
 		if end < 0 {
 			end = len(ba)
 		}
-		if start < 0 || len(ba) < start || len(ba) < end {
+		if start < 0 || len(ba) < start || len(ba) < end || end < start {
 			slip.ErrorPanic(s, depth, "indices %d and %d are out of bounds for string of length %d", start, end, len(ba))
 		}
 		seq = ta
@@ -187,7 +187,7 @@ func (f *Subseq) getArgs(s *slip.Scope, args slip.List, depth int) (start, end i
 		if end < 0 {
 			end = int(ta.Len)
 		}
-		if start < 0 || int(ta.Len) < start || int(ta.Len) < end {
+		if start < 0 || int(ta.Len) < start || int(ta.Len) < end || end < start {
 			slip.ErrorPanic(s, depth, "indices %d and %d are out of bounds for string of length %d", start, end, ta.Len)
 		}
 		seq = ta
